@@ -29,8 +29,8 @@ def build_prog(kind):
     if not ok:
         return None, log
     exe = os.path.join(common.BUILD, f"thread_deinit_{kind}")
-    r = common.sh(["gcc"] + flags + common.CFLAGS_COMMON + [f"-I{common.VERIF}/harness", "-o", exe, PROG_SRC] + objs + ["-lpthread"])
-    return (exe if r.returncode == 0 else None), r.stdout
+    ok, log = common._link(exe, ["gcc"] + flags + common.CFLAGS_COMMON + [f"-I{common.VERIF}/harness"], [PROG_SRC] + objs + ["-lpthread"])
+    return (exe if ok else None), log
 
 
 def run_prog(exe, kind, seed, excl):
